@@ -282,6 +282,8 @@ def r5_write_data_frame(ctx):
 
 
 def run(ctx):
+    from . import effects
+    effects.check_property(ctx, "C02")    # R02.E: no operation on shared protocol state outside the reviewed table
     from . import C01, C09, C11
     # frame integrity: a frame whose announced length is not its real length, or that is abandoned half written, makes the bytes
     # that follow (usually another stream's) parse under the wrong id
